@@ -275,6 +275,29 @@ fn main() {
             let mut rng = rng::Rng::new(o.seed);
             let cases = streams::cache_cases(&mut rng, o.tier == "thorough");
             run_rs_stream(&o, &mut rep, "cache-histories", "counting / wrapping / identity user functions, cacheable or not: every ordered pair of 18 equal-or-similar arguments (i1 \"1\" \"i1\" [i1] f1 d1 d1.0 d1.00 f0 f-0 none NaN …) over two rules and 3 consecutive evaluations; every subset of failing invocation indices (32) x 4 call sequences x 3 rule splits; 40 / 200 / 1000 distinct arguments each called twice in opposite orders (in one rule, and one call per rule over 400 rules), 300-element and 900-byte arguments differing only at the end; random histories; compared on the invocation log and all outcomes", false, cases, "full");
+            // the model keys the cache by the pair (function, argument); the code by the text `{name}-{param:?}`.  The two agree
+            // exactly when the Debug rendering of a Value is injective: checked here on every pair of the value pools
+            {
+                let mut vals = pool::boundary_pool(true);
+                vals.extend(pool::dense_pool(false));
+                vals.extend(streams::similar_args());
+                vals.extend(pool::string_probe_pool().into_iter().take(40));
+                let mut sr = report::StreamReport::new("debug-key-injective", "the Debug rendering of a Value (the cache key's second half) separates every two values of the boundary, dense, look-alike and string pools that the canonical encoding separates (all NaN being one value), and only those", true);
+                let mut seen: std::collections::HashMap<String, String> = Default::default();
+                for v in &vals {
+                    let dbg = format!("{:?}", v);
+                    let enc = codec::enc_value(v);
+                    sr.count(&enc, true);
+                    if let Some(prev) = seen.get(&dbg) {
+                        if prev != &enc {
+                            rep.add_finding(report::Finding { kind: "impl-violates-property".into(), stream: "debug-key-injective".into(), case: format!("debugkey\t{}\t{}", prev, enc), human: format!("two different arguments have the same cache key text {:?}", dbg.chars().take(160).collect::<String>()), impl_out: dbg.chars().take(300).collect(), model_out: format!("{} and {}", prev.chars().take(150).collect::<String>(), enc.chars().take(150).collect::<String>()), predicate: "a result is never reused for a different argument: the cache key separates different arguments".into(), signature: "C11 debug-key-collision".into() });
+                        }
+                    } else {
+                        seen.insert(dbg, enc);
+                    }
+                }
+                rep.streams.push(sr);
+            }
             // "a function that declares itself non-cacheable is invoked on every call": what counts is what the function declares
             // when it is called.  Two rulesets that differ only in WHEN the function started to declare what it declares now
             // (before registration / after the ruleset was built) must invoke it identically.
